@@ -94,6 +94,11 @@ theorem twopoint_lengths (ind1 ind2 : List α) (c1 c2 : Nat) (h : cxTwoPointOk i
 example : cxTwoPointOk [1, 2, 3, 4] [5, 6, 7, 8, 9] 4 1 := by decide
 example : cxTwoPoint [1, 2, 3, 4] [5, 6, 7, 8, 9] 4 1 = ([1, 6, 7, 8], [5, 2, 3, 4, 9]) := by decide
 
+/-- the documented former name `cxTwoPoints` is the same operator, so every statement above holds
+for that call form too -/
+theorem twopoints_alias (ind1 ind2 : List α) (c1 c2 : Nat) :
+    cxTwoPoints ind1 ind2 c1 c2 = cxTwoPoint ind1 ind2 c1 c2 := rfl
+
 /-! ## cxUniform -/
 
 /-- unguarded: the loop index runs over `range(min(len1, len2))`, so both item accesses exist for
@@ -245,6 +250,27 @@ theorem es_lengths (ind1 ind2 : ESInd α σ) (pt1 pt2 : Nat) (h : cxESTwoPointOk
 example : (⟨[1, 2, 3], [10, 20, 30]⟩ : ESInd Nat Nat).genes.length = (⟨[1, 2, 3], [10, 20, 30]⟩ : ESInd Nat Nat).strategy.length := rfl
 example : cxESTwoPointOk (⟨[1, 2, 3], [10, 20, 30]⟩ : ESInd Nat Nat) ⟨[4, 5, 6, 7], [40, 50, 60, 70]⟩ 1 2 := by decide
 example : cxESTwoPoint (⟨[1, 2, 3], [10, 20, 30]⟩ : ESInd Nat Nat) ⟨[4, 5, 6, 7], [40, 50, 60, 70]⟩ 1 2
+    = (⟨[1, 5, 6], [10, 50, 60]⟩, ⟨[4, 2, 3, 7], [40, 20, 30, 70]⟩) := by decide
+
+/-- the documented former name `cxESTwoPoints` is the same operator — in particular it carries the
+strategies: all statements of this section hold for that call form -/
+theorem estwopoints_alias (ind1 ind2 : ESInd α σ) (pt1 pt2 : Nat) :
+    cxESTwoPoints ind1 ind2 pt1 pt2 = cxESTwoPoint ind1 ind2 pt1 pt2 := rfl
+
+/-- spelled out for the clause the alias could lose: gene and strategy value travel together -/
+theorem estwopoints_pairs_multiset [DecidableEq α] [DecidableEq σ] (ind1 ind2 : ESInd α σ) (pt1 pt2 : Nat)
+    (h : cxESTwoPointOk ind1 ind2 pt1 pt2)
+    (hs1 : ind1.genes.length = ind1.strategy.length) (hs2 : ind2.genes.length = ind2.strategy.length) :
+    (List.zip (cxESTwoPoints ind1 ind2 pt1 pt2).1.genes (cxESTwoPoints ind1 ind2 pt1 pt2).1.strategy ++
+     List.zip (cxESTwoPoints ind1 ind2 pt1 pt2).2.genes (cxESTwoPoints ind1 ind2 pt1 pt2).2.strategy).Perm
+    (List.zip ind1.genes ind1.strategy ++ List.zip ind2.genes ind2.strategy) ∧
+    Locus (List.zip (cxESTwoPoints ind1 ind2 pt1 pt2).1.genes (cxESTwoPoints ind1 ind2 pt1 pt2).1.strategy,
+           List.zip (cxESTwoPoints ind1 ind2 pt1 pt2).2.genes (cxESTwoPoints ind1 ind2 pt1 pt2).2.strategy)
+          (List.zip ind1.genes ind1.strategy, List.zip ind2.genes ind2.strategy) := by
+  rw [estwopoints_alias]
+  exact ⟨es_pairs_multiset ind1 ind2 pt1 pt2 h hs1 hs2, es_pairs_locus ind1 ind2 pt1 pt2 h hs1 hs2⟩
+
+example : cxESTwoPoints (⟨[1, 2, 3], [10, 20, 30]⟩ : ESInd Nat Nat) ⟨[4, 5, 6, 7], [40, 50, 60, 70]⟩ 1 2
     = (⟨[1, 5, 6], [10, 50, 60]⟩, ⟨[4, 2, 3, 7], [40, 20, 30, 70]⟩) := by decide
 
 end ES
